@@ -36,7 +36,7 @@ fn name_sexp(n: &ObjectName) -> String {
 fn alias_sexp(a: &Option<TableAlias>) -> Option<String> {
     match a {
         None => Some("none".into()),
-        Some(TableAlias { name, columns }) if columns.is_empty() => Some(id_sexp(name)),
+        Some(TableAlias { name, columns, .. }) if columns.is_empty() => Some(id_sexp(name)),
         _ => None,
     }
 }
@@ -45,7 +45,7 @@ fn item_sexp(i: &SelectItem) -> Option<String> {
     let plain = WildcardAdditionalOptions::default();
     Some(match i {
         SelectItem::UnnamedExpr(e) => format!("(item {})", expr_sexp(e)?),
-        SelectItem::ExprWithAlias { expr, alias } => format!("(as {} {})", expr_sexp(expr)?, id_sexp(alias)),
+        SelectItem::ExprWithAlias { expr, alias, .. } => format!("(as {} {})", expr_sexp(expr)?, id_sexp(alias)),
         SelectItem::Wildcard(o) if *o == plain => "(star)".into(),
         SelectItem::QualifiedWildcard(n, o) if *o == plain => format!("(qstar{})", ids_sexp(&n.0)),
         _ => return None,
@@ -70,12 +70,12 @@ fn ret_sexp(r: &Option<Vec<SelectItem>>) -> Option<String> {
 
 fn factor_sexp(f: &TableFactor) -> Option<String> {
     Some(match f {
-        TableFactor::Table { name, alias, args: None, with_hints, version: None, partitions, with_ordinality: false }
+        TableFactor::Table { name, alias, args: None, with_hints, version: None, partitions, with_ordinality: false, .. }
             if with_hints.is_empty() && partitions.is_empty() =>
         {
             format!("(table (name{}) {})", ids_sexp(&name.0), alias_sexp(alias)?)
         }
-        TableFactor::Derived { lateral: false, subquery, alias } => format!("(derived {} {})", query_sexp(subquery)?, alias_sexp(alias)?),
+        TableFactor::Derived { lateral: false, subquery, alias, .. } => format!("(derived {} {})", query_sexp(subquery)?, alias_sexp(alias)?),
         _ => return None,
     })
 }
@@ -193,15 +193,15 @@ fn colopt_sexp(o: &ColumnOptionDef) -> Option<String> {
         ColumnOption::Null => "null".into(),
         ColumnOption::NotNull => "notnull".into(),
         ColumnOption::Default(e) => format!("(default {})", expr_sexp(e)?),
-        ColumnOption::Unique { is_primary: true, characteristics: None } => "primary".into(),
-        ColumnOption::Unique { is_primary: false, characteristics: None } => "unique".into(),
+        ColumnOption::Unique { is_primary: true, characteristics: None, .. } => "primary".into(),
+        ColumnOption::Unique { is_primary: false, characteristics: None, .. } => "unique".into(),
         ColumnOption::Check(e) => format!("(check {})", expr_sexp(e)?),
         ColumnOption::Comment(s) => format!("(comment {})", hx(s)),
         ColumnOption::DialectSpecific(v) => match v.as_slice() {
             [Token::Word(w)] => format!("(dialect {})", w.value),
             _ => return None,
         },
-        ColumnOption::ForeignKey { foreign_table, referred_columns, on_delete: None, on_update: None, characteristics: None } => {
+        ColumnOption::ForeignKey { foreign_table, referred_columns, on_delete: None, on_update: None, characteristics: None, .. } => {
             format!("(references {} (cols{}))", name_sexp(foreign_table), ids_sexp(referred_columns))
         }
         _ => return None,
@@ -336,8 +336,7 @@ pub fn stmt_sexp(s: &Statement) -> Option<String> {
             returning,
             replace_into,
             priority,
-            insert_alias,
-        }) => {
+            insert_alias, .. }) => {
             if or.is_some()
                 || *ignore
                 || *overwrite
@@ -364,7 +363,7 @@ pub fn stmt_sexp(s: &Statement) -> Option<String> {
                 ret_sexp(returning)?
             ))
         }
-        Statement::Update { table, assignments, from, selection, returning } => {
+        Statement::Update { table, assignments, from, selection, returning, .. } => {
             let mut assigns = String::new();
             for a in assignments {
                 let t = match &a.target {
@@ -384,7 +383,7 @@ pub fn stmt_sexp(s: &Statement) -> Option<String> {
                 ret_sexp(returning)?
             ))
         }
-        Statement::Delete(Delete { tables, from, using, selection, returning, order_by, limit }) => {
+        Statement::Delete(Delete { tables, from, using, selection, returning, order_by, limit, .. }) => {
             let fr = match from {
                 FromTable::WithFromKeyword(v) => twjs(v)?,
                 FromTable::WithoutKeyword(_) => return None,
@@ -406,7 +405,7 @@ pub fn stmt_sexp(s: &Statement) -> Option<String> {
             ))
         }
         Statement::CreateTable(ct) => create_sexp(ct),
-        Statement::Drop { object_type: ObjectType::Table, if_exists, names, cascade, restrict, purge, temporary: false } => Some(format!(
+        Statement::Drop { object_type: ObjectType::Table, if_exists, names, cascade, restrict, purge, temporary: false, .. } => Some(format!(
             "(drop {} (names{}) {} {} {})",
             b(*if_exists),
             names.iter().map(|n| format!(" {}", name_sexp(n))).collect::<String>(),
